@@ -1,4 +1,9 @@
 #!/bin/sh
 # run the pinned test suite on a tree (default /repo); prints the summary line; exit status of pytest
 R="${1:-/repo}"
-cd "$R" && /venv/bin/python -m pytest -q -p no:cacheprovider -n 8 --color=no 2>&1 | tail -3
+# (the suite leaks temporary directories: give it its own TMPDIR and remove it)
+T=$(mktemp -d /var/tmp/suite.XXXXXX)
+cd "$R" && TMPDIR=$T /venv/bin/python -m pytest -q -p no:cacheprovider -n 8 --color=no 2>&1 | tail -3
+rc=$?
+rm -rf "$T"
+exit $rc
